@@ -59,7 +59,10 @@ Proof. exact tokenize_concat. Qed.
 Print Assumptions C16_tokens_partition.
 
 (** For ALL lists of names (all strings, mixed classes) and every float oracle
-    that is exact on the integer names of the list: the comparator, on the
+    that is monotone on the integer names of the list (no exactness: rounding
+    may merge neighbouring integers) and does not round a non-zero integer to
+    zero — which a correctly rounding [str::parse::<f64>] does for every name:
+    the comparator, on the
     arguments (position, name) of the list, is a total preorder, and only an
     argument itself is [Equal] to it — a strict total order, which is what
     std's sorts need not to panic. *)
@@ -75,28 +78,53 @@ Proof. exact argcmp_strict_total. Qed.
 Print Assumptions C16_argcmp_strict_total.
 
 (** The hypothesis is satisfiable, for every set of names, by the exact decimal
-    oracle (Rust's float grammar with the exact value of the literal). *)
+    oracle (Rust's float grammar with the exact value of the literal), and on
+    the names 2^53, 2^53+1, "9007199254740992.0" by an oracle that rounds them
+    to one value like f64. *)
 Theorem C16_oracle_dec_ok : forall P, oracle_ok_on fval fval_cmp dec_parse P.
 Proof. exact oracle_dec_ok. Qed.
 Print Assumptions C16_oracle_dec_ok.
 
-(** ... and it cannot be dropped: an oracle that rounds 2^53, 2^53+1 and
-    "9007199254740992.0" to one value (as f64 does) makes [Equal] non-transitive. *)
+Theorem C16_oracle_rounding_ok :
+  oracle_ok_on Z Z.compare rounding_oracle (fun s => In s [n_2p53; n_2p53_1; n_2p53_dot0]).
+Proof. exact rounding_oracle_ok. Qed.
+Print Assumptions C16_oracle_rounding_ok.
+
+(** About the comparator before commit 6cb0c72 (float-[Equal] names tied): with
+    the rounding oracle it was not a preorder on these three names (the real
+    crate panicked in sort_by on 21 of them); the current one orders them. *)
 Theorem C16_argcmp_rounding_refuted :
-  name_cmp Z Z.compare rounding_oracle n_2p53 n_2p53_1 = Lt /\
-  name_cmp Z Z.compare rounding_oracle n_2p53 n_2p53_dot0 = Eq /\
-  name_cmp Z Z.compare rounding_oracle n_2p53_1 n_2p53_dot0 = Eq.
-Proof. exact rounding_oracle_breaks_preorder. Qed.
+  old_name_cmp Z.compare rounding_oracle n_2p53 n_2p53_1 = Lt /\
+  old_name_cmp Z.compare rounding_oracle n_2p53 n_2p53_dot0 = Eq /\
+  old_name_cmp Z.compare rounding_oracle n_2p53_1 n_2p53_dot0 = Eq.
+Proof. exact rounding_oracle_broke_old_comparator. Qed.
 Print Assumptions C16_argcmp_rounding_refuted.
 
+Theorem C16_argcmp_rounding_now_ordered :
+  name_cmp Z Z.compare rounding_oracle n_2p53 n_2p53_1 = Lt /\
+  name_cmp Z Z.compare rounding_oracle n_2p53 n_2p53_dot0 = Lt /\
+  name_cmp Z Z.compare rounding_oracle n_2p53_1 n_2p53_dot0 = Lt.
+Proof. exact rounding_oracle_new_comparator. Qed.
+Print Assumptions C16_argcmp_rounding_now_ordered.
+
 (** Two numeric names compare by value (negatives, decimals, exponents,
-    infinities included); a number is before every other name; two other names
-    compare naturally. *)
+    infinities included); at equal float value integers come first (two
+    integers by their exact value) and other spellings tie; a number is before
+    every other name; two other names compare naturally. *)
 Theorem C16_argcmp_numeric : forall V vcmp fparse (P : bytes -> Prop),
   oracle_ok_on V vcmp fparse P ->
   forall a b, P a -> P b ->
   (forall x y, fparse a = Some x -> fparse b = Some y ->
-     name_cmp V vcmp fparse a b = vcmp x y) /\
+     name_cmp V vcmp fparse a b =
+     match vcmp x y with
+     | Eq => match int_val a, int_val b with
+             | Some p, Some q => (p ?= q)%Z
+             | Some _, None => Lt
+             | None, Some _ => Gt
+             | None, None => Eq
+             end
+     | o => o
+     end) /\
   (forall x, fparse a = Some x -> fparse b = None ->
      name_cmp V vcmp fparse a b = Lt /\ name_cmp V vcmp fparse b a = Gt) /\
   (fparse a = None -> fparse b = None ->
